@@ -38,8 +38,14 @@ pub fn within_bounds(text: &str) -> bool {
     // unrolling copies the repeated expression: bound the size of the unrolled grammar, not only the counts
     // (a 2 KiB expression repeated 4096 times is gigabytes of AST); stacked `+` (each doubles) beyond 14 levels is
     // the recorded finding D23 and is excluded by construction
-    counts <= MAX_REP_PRODUCT && counts.saturating_mul(text.len() as u64) <= MAX_UNROLLED_BYTES && pluses <= MAX_STACKED_PLUS
+    // counts and stacked `+` multiply (`"a"{128}` under 14 `+` would be two million copies)
+    counts <= MAX_REP_PRODUCT
+        && counts.saturating_mul(text.len() as u64) <= MAX_UNROLLED_BYTES
+        && pluses <= MAX_STACKED_PLUS
+        && counts.saturating_mul(1u64 << pluses.min(40)) <= MAX_COPIES
 }
+
+pub const MAX_COPIES: u64 = 16_384;
 
 pub const MAX_STACKED_PLUS: u32 = 14;
 /// rendered size of the optimized rules per byte of text and unit of repetition count (measured: <= 6)
@@ -161,6 +167,9 @@ pub const VALIDATOR_STEPS_PER_BYTE: usize = 150;
 /// expression-traversal steps of the optimizer per byte (x counts^2): largest measured ratio 5 (sql.pest); the
 /// restorer's quadratic behaviour in a count reaches 25 per byte per count at count 128
 pub const OPTIMIZER_STEPS_PER_BYTE: usize = 64;
+/// absolute cap on the optimizer's traversal budget (the largest legitimate case measured, count 128 on a
+/// self-referential body, needs 0.2 M steps)
+pub const OPTIMIZER_STEPS_CAP: usize = 50_000_000;
 
 /// Some(budget) when parsing `text` as a grammar needs more combinator calls than the linear budget.
 pub fn call_budget_exceeded(text: &str) -> Option<usize> {
@@ -220,7 +229,7 @@ pub fn check_text(ctx: &mut Ctx, text: &str, origin: &str) -> Result<(), Fail> {
         // ... and so do the optimizer's expression traversals (cfg hook in meta/src/optimizer/mod.rs and ast.rs);
         // the restorer is quadratic in a repetition count, hence counts^2
         let counts = unroll_chain(text).0 as usize;
-        pest_meta::optimizer::verif::reset_steps(OPTIMIZER_STEPS_PER_BYTE * (text.len() + CALLS_SLACK) * counts * counts);
+        pest_meta::optimizer::verif::reset_steps((OPTIMIZER_STEPS_PER_BYTE * (text.len() + CALLS_SLACK) * counts * counts).min(OPTIMIZER_STEPS_CAP));
         let optimized = pest_meta::parse_and_optimize(text);
         pest_meta::validator::verif::reset(usize::MAX);
         pest_meta::optimizer::verif::reset_steps(usize::MAX);
@@ -613,7 +622,7 @@ pub fn replay(case: &Value) -> Result<(), Fail> {
 
 pub const DEF: CheckDef = CheckDef {
     id: "C09",
-    rule: "Texts, not grammars: (a1) chunks of the repository's .pest files mutated at token level (delete/duplicate/swap/replace/insert from a dictionary of meta-grammar tokens incl. out-of-range numbers, malformed and out-of-range escapes, lone quotes, non-ASCII; truncation at a token or inside one; numbers replaced by 0 / 2^31 +- 1 / 2^32 +- 1 / 2^64) and every byte-truncation of the small chunks; (a2) the same mutations of canonical printings of generated valid grammars; (b) random token soup over that dictionary with random gaps/comments; (c) the same soup wrapped as `r0 = { ... }`; (d) one or two unterminated constructs (comment/paren/bracket/string/PUSH/PEEK/repetition openers, dangling operators) repeated 1..60 times; (e) reference lattices: 1..28 rules r_i = { shape(r_(i+1), r_(i+1 or i+2)) } over ten shapes (choice, sequence, predicates, optionals, repetitions, PUSH) and six leaves; (f) postfix towers: one operand under 1..20 stacked postfix operators (+ * ? {n} {n,m} {,m} {n,}), flat or parenthesised. Stated bounds: text <= 4 KiB, bracket nesting <= 200, along the deepest chain of nested postfix operators the product of the in-range repetition counts <= 128 and that product x text length <= 64 KiB (the unroller copies the repeated expression, and the restorer pass is cubic in a count applied to a self-referential expression: 800 -> 260 s), and at most 14 stacked `+` (finding D23); larger cases are filtered before the call and counted under excluded_by_construction. Oracle: (time) the syntactic parse stays within 200*(len+16) combinator calls, enforced with pest's own call limit, and a text over budget is attributed by re-running it with every `/*` blanked, the validator's recursive analyses stay within 150*(len+16) steps and the optimizer's expression traversals within 64*(len+16)*counts^2 steps (cfg hooks with step limits), and the optimized rules render to at most 64*(len+16)*counts bytes; (totality) parse_and_optimize and generator::docs::consume return under catch_unwind (worker survival = no abort); on Err the list is non-empty, every location lies in 0..=len on char boundaries with start <= end, Display and renamed_rules(rename_meta_rule) render; on Ok Display of every optimized expression renders. Non-trivial = the text gets past the meta parser (reaches consumption/validation) or its first error lies within 12 bytes of the end; distinct = distinct text.",
+    rule: "Texts, not grammars: (a1) chunks of the repository's .pest files mutated at token level (delete/duplicate/swap/replace/insert from a dictionary of meta-grammar tokens incl. out-of-range numbers, malformed and out-of-range escapes, lone quotes, non-ASCII; truncation at a token or inside one; numbers replaced by 0 / 2^31 +- 1 / 2^32 +- 1 / 2^64) and every byte-truncation of the small chunks; (a2) the same mutations of canonical printings of generated valid grammars; (b) random token soup over that dictionary with random gaps/comments; (c) the same soup wrapped as `r0 = { ... }`; (d) one or two unterminated constructs (comment/paren/bracket/string/PUSH/PEEK/repetition openers, dangling operators) repeated 1..60 times; (e) reference lattices: 1..28 rules r_i = { shape(r_(i+1), r_(i+1 or i+2)) } over ten shapes (choice, sequence, predicates, optionals, repetitions, PUSH) and six leaves; (f) postfix towers: one operand under 1..20 stacked postfix operators (+ * ? {n} {n,m} {,m} {n,}), flat or parenthesised. Stated bounds: text <= 4 KiB, bracket nesting <= 200, along the deepest chain of nested postfix operators the product of the in-range repetition counts <= 128 and that product x text length <= 64 KiB (the unroller copies the repeated expression, and the restorer pass is cubic in a count applied to a self-referential expression: 800 -> 260 s), at most 14 stacked `+` (finding D23) and counts x 2^pluses <= 16384; larger cases are filtered before the call and counted under excluded_by_construction. Oracle: (time) the syntactic parse stays within 200*(len+16) combinator calls, enforced with pest's own call limit, and a text over budget is attributed by re-running it with every `/*` blanked, the validator's recursive analyses stay within 150*(len+16) steps and the optimizer's expression traversals within min(64*(len+16)*counts^2, 50M) steps (cfg hooks with step limits), and the optimized rules render to at most 64*(len+16)*counts bytes; (totality) parse_and_optimize and generator::docs::consume return under catch_unwind (worker survival = no abort); on Err the list is non-empty, every location lies in 0..=len on char boundaries with start <= end, Display and renamed_rules(rename_meta_rule) render; on Ok Display of every optimized expression renders. Non-trivial = the text gets past the meta parser (reaches consumption/validation) or its first error lies within 12 bytes of the end; distinct = distinct text.",
     assumptions: &["'bounded time' is read as a linear budget of combinator calls for the meta parser (200 per byte; largest ratio measured on texts without the known blow-up: 28); validation and optimisation time is bounded by the stated size bounds only, and a watchdog kill there is reported as inconclusive (exit 2), never as a violation"],
     floor: |t| t.pick(50_000, 500_000),
     shards: |_| 16,
